@@ -6,6 +6,7 @@ import (
 	"encoding/hex"
 	"fmt"
 	"io"
+	"strings"
 
 	"github.com/wader/fq/pkg/bitio"
 	"github.com/wader/fq/pkg/decode"
@@ -218,6 +219,9 @@ var allKinds = append(append([]string{}, leafKinds...),
 	"fmt", "fmt_or_raw", "fmt_inline", "fmtlen", "fmtlen", "fmtlen_or_raw", "fmtrange",
 	"fmtbuf", "fmtreader", "rootbuf", "structroot", "arrayroot",
 	"errorf", "fatalf",
+	// a length delimited nested decode whose decoder skips its first bits
+	// (leading gap of a decode that does not start at bit 0)
+	"fmtlen_skip", "fmtrange_skip",
 )
 
 func (g *genState) ops(depth, n int) []*Op {
@@ -260,6 +264,18 @@ func (g *genState) ops(depth, n int) []*Op {
 			op.Name, op.N, op.Fmts, op.Arr = g.name(), lenGen.Draw(g.rt, "fmtlen"), g.fmts(depth), rapid.IntRange(0, 5).Draw(g.rt, "rootarr") == 0
 		case "fmtrange":
 			op.Name, op.Off, op.N, op.Fmts = g.name(), rapid.Int64Range(0, 128).Draw(g.rt, "first"), lenGen.Draw(g.rt, "fmtlen"), g.fmts(depth)
+		case "fmtlen_skip", "fmtrange_skip":
+			op.K = strings.TrimSuffix(k, "_skip")
+			op.Name, op.N, op.Fmts = g.name(), rapid.Int64Range(8, 80).Draw(g.rt, "fmtlen"), g.fmts(depth)
+			if op.K == "fmtrange" {
+				op.Off = rapid.Int64Range(1, 64).Draw(g.rt, "first")
+			}
+			skip := &Op{K: "seekrel", N: rapid.Int64Range(1, 12).Draw(g.rt, "skip")}
+			if rapid.Bool().Draw(g.rt, "skipabs") {
+				skip = &Op{K: "seekabs", Off: skip.N}
+			}
+			lead := []*Op{skip, {K: "u", Name: g.name(), N: rapid.Int64Range(1, 8).Draw(g.rt, "bits")}}
+			op.Fmts[len(op.Fmts)-1] = append(lead, op.Fmts[len(op.Fmts)-1]...)
 		case "fmtbuf":
 			op.Name, op.Fmts, op.Arr = g.name(), g.fmts(depth), rapid.IntRange(0, 5).Draw(g.rt, "rootarr") == 0
 			g.nested(op)
